@@ -245,7 +245,7 @@ func caseTerm(c *GCase) string {
 
 // ---------------------------------------------------------------- test entry points
 
-func runAll(t *testing.T, prop string, results [][2]string) {
+func runAll(t *testing.T, prop, base string, results [][2]string) {
 	dir := OutDir(t, prop)
 	var cases []GCase
 	if rf := ReplayFile(); rf != "" {
@@ -282,12 +282,12 @@ func runAll(t *testing.T, prop string, results [][2]string) {
 		fam[cases[i].Family]++
 		sizes[fmt.Sprintf("n=%d,f=%d,obs=%d", cases[i].N, cases[i].F, len(cases[i].Obs))]++
 	}
-	cf.Write(t, dir, "cases.v", "o_case", results)
-	WriteJSON(t, filepath.Join(dir, "cases.json"), map[string]any{"property": prop, "seed": EnvSeed(), "cases": cases, "families": fam, "sizes": sizes})
+	cf.Write(t, dir, base+".v", "o_case", results)
+	WriteJSON(t, filepath.Join(dir, base+".json"), map[string]any{"property": prop, "seed": EnvSeed(), "cases": cases, "families": fam, "sizes": sizes})
 }
 
 func TestC01(t *testing.T) {
-	runAll(t, "C01", [][2]string{
+	runAll(t, "C01", "cases", [][2]string{
 		{"mism", "find_idx k_mism_agreed cases"},
 		{"bad", "find_idx (fun k => negb (K01 k)) cases"},
 		{"kf_uid_collision", "find_idx k_kf_uid_collision cases"},
@@ -297,7 +297,7 @@ func TestC01(t *testing.T) {
 }
 
 func TestC02(t *testing.T) {
-	runAll(t, "C02", [][2]string{
+	runAll(t, "C02", "cases", [][2]string{
 		{"mism", "find_idx k_mism cases"},
 		{"bad", "find_idx (fun k => negb (K02 k)) cases"},
 		{"nontriv", "find_idx k_nontriv cases"},
@@ -306,10 +306,20 @@ func TestC02(t *testing.T) {
 }
 
 func TestC05(t *testing.T) {
-	runAll(t, "C05", [][2]string{
+	runAll(t, "C05", "cases", [][2]string{
 		{"mism", "find_idx k_mism_surfaced cases"},
 		{"bad", "find_idx (fun k => negb (K05 k)) cases"},
 		{"kf_zero_hash_quorum", "find_idx k_kf_zero_hash_quorum cases"},
+		{"nontriv", "find_idx k_nontriv cases"},
+		{"cov", "sum_cov (map k_cov cases)"},
+	})
+}
+
+// outcome clauses of C03 on the same rounds
+func TestC03(t *testing.T) {
+	runAll(t, "C03", "cases_outcome", [][2]string{
+		{"mism", "find_idx k_mism cases"},
+		{"bad", "find_idx (fun k => negb (K03 k)) cases"},
 		{"nontriv", "find_idx k_nontriv cases"},
 		{"cov", "sum_cov (map k_cov cases)"},
 	})
